@@ -14,9 +14,18 @@ CHUNK_RULE = ("chunk: library op sequences (messages biased to repeat type/strea
               "independent Python spec encoder with 1/2/3-byte csids, all legal format choices, interleaving (fde), mutated/random streams (de); "
               "non-trivial = at least two tokens after the op")
 
+HS_RULE = ("hs: one Handshake object per case (role, pinned random source via hook H1) fed the bytes of a peer played by an independent Python reference "
+           "(hashlib HMAC): library-style peers, peers using digest scheme 1 or 2 at chosen offsets (quick: boundary + random offsets, thorough: all 728 x 2 x both roles, "
+           "own offsets likewise by pinning the pointer bytes), digest-less original-handshake peers echoing our packet 1; whole / byte-wise / fixed / random fragmentation, "
+           "trailing application bytes with or after packet 2, client start first or reactive; malformed version bytes; non-trivial = contains an input op")
+
 PROPS = {
     "C01": {"components": ["chunk"], "rule": CHUNK_RULE,
             "explanation": "oracles C01.roundtrip / C01.packet_nonempty / C01.no_empty_packet on the real serializer+deserializer"},
+    "C05": {"components": ["hs"], "rule": HS_RULE,
+            "explanation": "oracles vs the Python reference: emitted bytes = version + own packet 1 + own packet 2, no error, completion only after 3073 peer bytes, trailing bytes handed back exactly once in order"},
+    "C11": {"components": ["hs"], "rule": HS_RULE,
+            "explanation": "oracle C11.packets_match_reference_digest_and_signature: the real packets equal the packets of the independent hashlib reference (digest position, digest, response signature or exact echo)"},
     "C06": {"components": ["chunk"], "rule": CHUNK_RULE,
             "explanation": "oracle C06.foreign_stream: real deserializer on streams of the independent spec encoder = the encoded messages"},
     "C07": {"components": ["chunk"], "rule": CHUNK_RULE,
